@@ -143,7 +143,12 @@ def exec (s : Sys) (op : Nat) (prio : Int) (req : List Nat) (adv : Adv) : ExecRe
   if q.2.2.2 then
     let c1 := { q.2.1 with resAcq := true }
     let a1 := advanceCb (q.1.setCtx c1) c1 adv 1
-    if a1.2.2 then execWork a1.1 a1.2.1 adv (log0 ++ [.cp 1 true])
+    if a1.2.2 then
+      -- the operation is looked at once more before the work function runs: when it has been ended on the way here
+      -- (a kill, a shutdown, a watchdog or maintenance run fired from inside one of the two checkpoint callbacks) what it
+      -- had acquired is released, and the call fails without running the work (`active_operations.get(id) is not ctx`)
+      if (a1.1.ctx? op).isSome then execWork a1.1 a1.2.1 adv (log0 ++ [.cp 1 true])
+      else failWith a1.1 a1.2.1 (log0 ++ [.cp 1 true]) none
     else failWith a1.1 a1.2.1 (log0 ++ [.cp 1 false]) none
   else failWith q.1 q.2.1 log0 none
 
